@@ -111,12 +111,21 @@ def _eq_item(item1, item2):
 
     One or both of the items may be `None`; Two items that are `None` are
     considered equal.
+
+    Items of kinds that cannot be compared with each other are considered not
+    equal.
     """
     if item1 is None:
         return item2 is None
     if item2 is None:
         return False
-    return item1 == item2
+    try:
+        return item1 == item2
+    except TypeError:
+        # The items are of kinds that cannot be compared (e.g. a string and
+        # an embedded CIMInstance, whose __eq__() rejects other types).
+        # Consistent with NocaseDict.__eq__(), they are considered not equal.
+        return False
 
 
 def _eq_dict(dict1, dict2):
